@@ -6,15 +6,18 @@
 
    A pod is described by what the strategies read from it.  Glue that stays on the
    implementation side of the comparison: label/annotation parsing (QoS label, eviction-enabled
-   label, eviction-policy JSON, eviction-priority and priority labels), container request
-   summation, metric-cache queries.  Priority-class derivation uses the GENERATED
+   label, eviction-policy JSON, eviction-priority and priority labels), metric-cache queries.
+   Container request summation IS modelled ([ctr], [with_ctrs]): three code sites sum the
+   batch-cpu of a pod on their own (list builder, release closure of BECPUEvict, request
+   accounting of CPUAllocatableEvict) and must agree with the one definition here.  Priority-class derivation uses the GENERATED
    [getPriorityClassByPriority] (apis/extension/priority.go).
 
    Resource ids: 0 = plain (memory | cpu), 1 = batch-*, 2 = mid-*.
    Release targets: 0 = podUsed, 1 = podResourceRequest.
    Features: 0 = BE*Evict, 1 = *AllocatableEvict, 2 = *Evict (the order the strategies use).  *)
 From Coq Require Import List ZArith Bool String.
-From Verif Require Import Lib.SortX Gen.Gen_consts Gen.Gen_funcs C11.Model.
+From Verif Require Import Lib.SortX Lib.SoftF64 Gen.Gen_consts Gen.Gen_funcs C11.Model.
+From Verif Require Gen.Gen_scores.
 Import ListNotations.
 Open Scope Z_scope.
 
@@ -35,6 +38,46 @@ Record epod := mkEpod {
   p_req0 : Z;            (* pod request of the plain resource (cpu in milli) *)
   p_req1 : Z;            (* sum of positive container requests of batch-* *)
   p_req2 : Z }.          (* ... of mid-* *)
+
+(* ---------- containers (pod.Spec.Containers / pod.Spec.InitContainers) ---------- *)
+(* kind: 0 = regular container, 1 = init container, 2 = sidecar (KEP-753: init container with
+   restartPolicy Always, runs for the whole life of the pod); other kinds do not exist.
+   Requests per resource id as in [epod]; 0 = the container does not name the resource. *)
+Record ctr := mkCtr { k_pod : Z; k_kind : Z; k_req0 : Z; k_req1 : Z; k_req2 : Z }.
+
+Definition runs_along (k : ctr) : bool := (k_kind k =? 0) || (k_kind k =? 2).
+
+(* what a pod holds of an extended resource while it runs (util.GetPodBEMilliCPURequest and its
+   copies in evict.go:247, cpu_evict.go:174, cpu_evict.go:583): the positive requests of the
+   regular containers and of the sidecars *)
+Definition ext_req (sel : ctr -> Z) (cs : list ctr) : Z :=
+  fold_right (fun k acc => (if runs_along k then Z.max 0 (sel k) else 0) + acc) 0 cs.
+
+(* resourcehelper.PodRequests for the plain resource (no pod-level resources, no overhead):
+   max (regular + sidecars, max_i InitContainerUse(i)),
+   InitContainerUse(i) = sidecars declared before i + container i *)
+Fixpoint init_use (cs : list ctr) (restartable : Z) : Z :=
+  match cs with
+  | [] => 0
+  | k :: t =>
+    if k_kind k =? 2 then Z.max (restartable + k_req0 k) (init_use t (restartable + k_req0 k))
+    else if k_kind k =? 1 then Z.max (restartable + k_req0 k) (init_use t restartable)
+    else init_use t restartable
+  end.
+Definition plain_req (cs : list ctr) : Z :=
+  Z.max (fold_right (fun k acc => (if runs_along k then k_req0 k else 0) + acc) 0 cs)
+        (init_use cs 0).
+
+(* the pod [p] (its p_req* fields describing the first regular container) with the further
+   containers [extra] (those naming the pod, in declaration order) *)
+Definition ctrs_of (p : epod) (extra : list ctr) : list ctr :=
+  mkCtr (p_id p) 0 (p_req0 p) (p_req1 p) (p_req2 p)
+  :: filter (fun k => k_pod k =? p_id p) extra.
+Definition with_ctrs (extra : list ctr) (p : epod) : epod :=
+  let cs := ctrs_of p extra in
+  mkEpod (p_id p) (p_be p) (p_active p) (p_pol p) (p_prionil p) (p_prio p) (p_enabled p)
+         (p_evprio p) (p_haslab p) (p_lab p) (p_hasmetric p) (p_used p)
+         (plain_req cs) (ext_req k_req1 cs) (ext_req k_req2 cs).
 
 Record ecfg := mkEcfg {
   c_enable : bool;                 (* ResourceUsedThresholdWithBE.Enable *)
@@ -190,6 +233,90 @@ Definition alloc_rel (need : rvec) (p : epod) : rvec :=
   let r := rsrc p in
   if negb (r =? 0) && has_key r need then [(r, req p)] else [].
 
+(* ---------- BECPUEvict: release target by BE CPU satisfaction ---------- *)
+(* cpu_evict.go:169-300 calculateMilliReleaseByBESatisfaction.  The node-level BE metrics
+   (usage, request, real limit; milli-cpu as float64) are inputs: a window average with its sample
+   count and the last sample.  Metric values are dyadic rationals v / 2^b_shift; every float64
+   operation of the code is the correspondingly rounded operation of Lib.SoftF64. *)
+Record bmetric := mkBm { m_ok : bool; m_val : Z; m_cnt : Z }.
+Record becfg := mkBecfg {
+  b_policy : bool;               (* CPUEvictPolicy == evictByAllocatable *)
+  b_lowF : bool; b_low : Z;      (* CPUEvictBESatisfactionLowerPercent *)
+  b_upF : bool; b_up : Z;        (* CPUEvictBESatisfactionUpperPercent *)
+  b_uthrF : bool; b_uthr : Z;    (* CPUEvictBEUsageThresholdPercent *)
+  b_winF : bool; b_win : Z;      (* CPUEvictTimeWindowSeconds *)
+  b_interval : Z;                (* metricCollectInterval, seconds *)
+  b_shift : Z;
+  b_avg_usage : bmetric; b_avg_req : bmetric; b_avg_limit : bmetric;
+  b_cur_usage : bmetric; b_cur_req : bmetric; b_cur_limit : bmetric }.
+
+(* constants of cpu_evict.go:44-52 *)
+Definition be_sat_low_max : Z := 60.
+Definition be_sat_up_max : Z := 100.
+Definition be_usage_thr_default : Z := 90.
+Definition be_min_allocatable : Z := 1.
+
+(* isSatisfactionConfigValid *)
+Definition be_cfg_ok (b : becfg) : bool :=
+  b_lowF b && b_upF b && (0 <? b_low b) && (b_low b <=? be_sat_low_max)
+  && (0 <? b_up b) && (b_up b <? be_sat_up_max) && (b_low b <=? b_up b).
+
+(* getBECPUMetric: (value, count), (0.0, 0) when the series has no sample *)
+Definition mvalue (b : becfg) (m : bmetric) : fl :=
+  if m_ok m then f_dyadic (m_val m) (b_shift b) else f0.
+Definition mcount (m : bmetric) : Z := if m_ok m then m_cnt m else 0.
+
+(* getBEMilliAllocatable *)
+Definition be_allocatable (c : ecfg) : fl :=
+  let a := nth 1 (c_alloc c) (-1) in
+  if a <? 0 then f_of_int (-1) else if a =? 0 then f_of_int be_min_allocatable else f_of_int a.
+Definition be_limit (c : ecfg) (b : becfg) (real : fl) : fl :=
+  if b_policy b then be_allocatable c else real.
+
+(* isBECPUUsageHighEnough *)
+Definition be_usage_high (b : becfg) (usage limit : fl) : bool :=
+  if fleb limit f0 then false
+  else if fltb limit f1000 then true
+  else
+    let thr := if b_uthrF b then b_uthr b else be_usage_thr_default in
+    negb (fltb (fdiv usage limit) (fdiv (f_of_int thr) f100)).
+
+(* calculateResourceMilliToReleaseBySatisfaction *)
+Definition be_sat_release (b : becfg) (request limit : fl) : Z :=
+  if fleb request f0 then 0
+  else
+    let rate := fdiv limit request in
+    if fltb (fdiv (f_of_int (b_low b)) f100) rate then 0
+    else
+      let gap := fsub (fdiv (f_of_int (b_up b)) f100) rate in
+      if fleb gap f0 then 0 else ftrunc (fmul request gap).
+
+Definition be_window (b : becfg) : Z :=
+  if b_winF b && (b_interval b <? b_win b) then b_win b else b_interval b.
+
+(* the "enough metric data to act" gate: the GENERATED isAvgQueryResultValid on the minimum of the
+   three sample counts *)
+Definition be_data_ok (b : becfg) : bool :=
+  Gen_scores.cpuevict_isAvgQueryResultValid (be_window b) (b_interval b)
+    (Z.min (mcount (b_avg_usage b)) (Z.min (mcount (b_avg_req b)) (mcount (b_avg_limit b)))).
+
+Definition be_need (c : ecfg) (b : becfg) : rvec :=
+  let avg_req := mvalue b (b_avg_req b) in
+  let avg_lim := be_limit c b (mvalue b (b_avg_limit b)) in
+  if negb (be_data_ok b) then []
+  else if negb (be_usage_high b (mvalue b (b_avg_usage b)) avg_lim) then []
+  else
+    let rel := be_sat_release b avg_req avg_lim in
+    if rel <=? 0 then []
+    else
+      let cur_req := mvalue b (b_cur_req b) in
+      let cur_lim := be_limit c b (mvalue b (b_cur_limit b)) in
+      if negb (be_usage_high b (mvalue b (b_cur_usage b)) cur_lim) then []
+      else if feqb cur_req avg_req && feqb cur_lim avg_lim then [(1, rel)]
+      else
+        let rel' := be_sat_release b cur_req cur_lim in
+        if rel' <=? 0 then [] else [(1, Z.min rel rel')].
+
 (* ---------- task assembly ---------- *)
 (* what a PodEvictInfo remembers of the pod: the pod and the usage figure its builder stored *)
 Record info := mkInfo { i_pod : epod; i_used : Z }.
@@ -224,10 +351,15 @@ Definition mem_ptasks (c : ecfg) (pods : list epod) : list ptask :=
            (map (fun p => mkInfo p (p_used p * 1000))
                 (build_prio 2 (c_evthr c) (fun p => p_used p * 1000) pods))] else []).
 
-(* cpuEvict without BECPUEvict (its satisfaction target is float64 arithmetic over metric
-   windows and is not modelled): CPUAllocatableEvict, CPUEvict *)
-Definition cpu_ptasks (c : ecfg) (pods : list epod) : list ptask :=
+(* cpuEvict: BECPUEvict, CPUAllocatableEvict, CPUEvict.  BECPUEvict reports under the release
+   target "request" like CPUAllocatableEvict; its GetPodResourceFunc credits ANY pod it is asked
+   about with the batch-cpu of its regular + sidecar containers *)
+Definition cpu_ptasks (c : ecfg) (b : becfg) (pods : list epod) : list ptask :=
   if c_cap c <=? 0 then [] else
+  (if feat c 0 && be_cfg_ok b && negb (is_nil (be_need c b))
+   then [mkPtask 0 1 (be_need c b) RelBatchReq
+           (map (fun p => mkInfo p (becpu_used p)) (build_be_cpu 0 pods))] else [])
+  ++
   (if feat c 1 && alloc_cfg_ok c && negb (is_nil (alloc_need 1000 c pods))
    then [mkPtask 1 1 (alloc_need 1000 c pods) (RelAlloc (alloc_need 1000 c pods))
            (map (fun p => mkInfo p (p_used p)) (build_prio 1 (c_aprio c) req pods))] else [])
